@@ -82,7 +82,7 @@ class FnModel:
                 return n["name"]
             did = n.get("did")
             if did in self.loop_vars:
-                return "L" if self.is_level_loop(self.loop_vars[did]) else "loopvar"
+                return "L" if self.is_level_loop(self.loop_vars[did]) else "loopvar"   # (sym() distinguishes loop variables by declaration)
             if did in self.lambda_param:
                 lam, idx = self.lambda_param[did]
                 return self.lambda_arg_origin(lam, idx, depth)
@@ -192,8 +192,7 @@ class FnModel:
         return "?" + k
 
     def is_level_loop(self, forstmt):
-        cond = forstmt["c"][1]
-        txt = self.facts.ntext(cond) if cond else ""
+        txt = "".join(self.facts.ntext(x) for x in forstmt["c"][:2] if x)
         return "stopUpperLevel" in txt or "getTreeHeight" in txt
 
     def lambda_arg_origin(self, lam, idx, depth):
@@ -283,6 +282,8 @@ class FnModel:
             return {"+": a + b, "-": a - b, "*": a * b}[n["op"]]
         if k == "UnaryOperator" and n.get("op") == "-":
             return -self.sym(kids(n)[0])
+        if k == "DeclRefExpr" and n.get("did") in self.loop_vars and not self.is_level_loop(self.loop_vars[n["did"]]):
+            return sympy.Symbol("<loop%d>" % n["did"], integer=True)
         o = self.origin(n)
         if o == "H":
             return H
